@@ -417,6 +417,8 @@ def check(repo, res, tier):
                     if g[0] != 'if':
                         break
                     outer.append(g)
+                if not loops:
+                    outer = []          # (no loop around the report: the general guard analysis below judges it)
                 for g in outer:
                     at = {(l.atom, l.pol) for l in plogic.must(g[1], ufr, g[2])}
                     if at and at <= {('truthy(%s)' % T, True), ('len(%s) <= 0' % T, False)}:
